@@ -41,6 +41,11 @@ def x_obligations(tier):
     return o
 
 
+def z_obligations(tier):
+    # which path configuration is loaded first must not matter for the shipped configuration modules either
+    return [dict(name=f"C13-roots[shipped,loaded-first={first}]", module="tplz3.c05z", func="roots", args={"conf": "shipped", "first": first}, timeout=300, family="C13-roots") for first in ("local", "server")]
+
+
 META = {
     "functions": ["spil.util.caching.lru_cache/lru_kw_cache/hit_cache", "spil.sid.sid.PathSid.path", "spil.sid.core.sid_factory.path_to_sid/sid_to_sid", "spil.sid.pathops.fs_resolver.path_to_dict",
                   "spil.sid.read.tools.unfold_search", "resolva.Resolver.resolve_* (functools.lru_cache, shared dictionaries)"],
